@@ -138,6 +138,10 @@ where
             tiles
                 .into_iter()
                 .map(|tile| {
+                    #[cfg(feature = "verif-hooks")]
+                    fidget_core::verif::point(
+                        fidget_core::verif::Point::TileTask,
+                    );
                     if eval_config.is_cancelled() {
                         Err(())
                     } else {
@@ -153,6 +157,10 @@ where
             tiles
                 .into_par_iter()
                 .map_init(init, |(w, rh), tile| {
+                    #[cfg(feature = "verif-hooks")]
+                    fidget_core::verif::point(
+                        fidget_core::verif::Point::TileTask,
+                    );
                     if eval_config.is_cancelled() {
                         Err(())
                     } else {
